@@ -129,6 +129,16 @@ class Extractor:
         comps = list(reversed(parts))
         if comps and not comps[0].endswith("()"):
             comps[0] = self.ctx.canon_field(self.cls, comps[0])
+        elif comps and self.cls:
+            # an accessor method that hands back (a possibly cached view of) one content field: x._get_attribute_set() -> attributes
+            mq = self.ctx.p.lookup_method(self.cls, comps[0][:-2])
+            mfi = self.ctx.p.functions.get(mq) if mq else None
+            if mfi is not None and len(mfi.params) == 1 and not isinstance(mfi.node, ast.Lambda):
+                stored = {t.attr for n in walk_function(mfi.node) if isinstance(n, ast.Assign) for t in n.targets if isinstance(t, ast.Attribute) and isinstance(t.value, ast.Name) and t.value.id == mfi.params[0]}
+                loads = {n.attr for n in walk_function(mfi.node) if isinstance(n, ast.Attribute) and isinstance(n.value, ast.Name) and n.value.id == mfi.params[0] and isinstance(n.ctx, ast.Load)} - stored
+                loads = {self.ctx.canon_field(self.cls, a) for a in loads if self.ctx.p.lookup_method(self.cls, a) is None or self.ctx.p.functions[self.ctx.p.lookup_method(self.cls, a)].is_property}
+                if len(loads) == 1:
+                    comps[0] = next(iter(loads))
         path = ".".join(PROJ_ALIASES.get(p, p.lstrip("_")) for p in comps) or "<obj>"
         return side, path
 
